@@ -353,6 +353,38 @@ func (e *engineA) converged() (bool, string) {
 		}
 	}
 	if ldr == nil {
+		// one dead end is known (known_findings.json): a leader stored a
+		// configuration in which it no longer votes (it demoted or removed
+		// itself), lost its office before that entry reached anybody else,
+		// and its vote is needed by the voters of the committed
+		// configuration. It does not campaign, and it refuses their
+		// requests because its log is longer.
+		for _, n := range live {
+			x := infos[n.nid]
+			if x.Configs.IsCommitted() || x.Configs.Latest.Nodes[n.nid].Voter || !x.Configs.Committed.Nodes[n.nid].Voter {
+				continue
+			}
+			alone := true
+			for _, m := range live {
+				if m != n && infos[m.nid].LastLogIndex >= x.Configs.Latest.Index {
+					alone = false
+				}
+			}
+			reach := 0 // voters of the committed configuration that can win without n
+			for id, v := range x.Configs.Committed.Nodes {
+				if !v.Voter || id == n.nid {
+					continue
+				}
+				for _, m := range live {
+					if m.nid == id {
+						reach++
+					}
+				}
+			}
+			if alone && reach < voters(&x.Configs.Committed)/2+1 {
+				return false, fmt.Sprintf("no leader: uncommitted self-demotion: node %d holds configuration %d in which it no longer votes, nobody else has that entry, and the voters of the committed configuration %d cannot win without its vote", n.nid, x.Configs.Latest.Index, x.Configs.Committed.Index)
+			}
+		}
 		return false, "no leader"
 	}
 	conf := ldrInfo.Configs.Latest
@@ -370,10 +402,14 @@ func (e *engineA) converged() (bool, string) {
 			}
 			e.refused[n.nid] = fmt.Sprintf("faulty follower: leader %d refuses member %d (%s)", ldr.nid, n.nid, ldrInfo.Followers[n.nid].ErrMessage)
 		}
-		if !conf.Nodes[n.nid].Voter && info.Term <= ldrInfo.Term {
-			// a non-voter gets no heartbeats while there is nothing to send:
-			// it forgets who leads after a while, which costs nothing. What
-			// counts for it is that it has everything (checked below).
+		if !conf.Nodes[n.nid].Voter {
+			// a non-voter gets no heartbeats while there is nothing to send
+			// (the suite pins that: TestChangeConfig_demoteLeader waits for
+			// its timer to expire): it forgets who leads after a while, and
+			// a node outside the configuration that keeps campaigning can
+			// then raise its term. The property asks of a non-voter that it
+			// is brought up to date, which is checked below with a fresh
+			// update that has to reach it.
 			continue
 		}
 		if info.Term != ldrInfo.Term || info.Leader != ldr.nid {
